@@ -2,6 +2,7 @@
 from vt.props import common
 from vt.props.common import call, report_failure, selfcheck
 from vt import adapt
+from vt.gen import fag
 from vt.ref import tmr, fa
 from vt.mon import contracts
 
@@ -182,6 +183,12 @@ def gen_cases(rec, rng, tier):
         RT = random_tm(rng, rng.randint(1, 4), rng.randint(0, 2), rng.randint(0, 2), blank, p_def=rng.choice([0.4, 0.7, 1.0]),
                        halting_moves=rng.random() < 0.2)
         yield {'cls': 'random_tm', 'ref': RT, 'n': 4 if thorough and len(RT[1]) <= 2 else 3, 'requery': True}
+        if rng.random() < 0.4:
+            # unusual but legal state names for a directly built machine (the empty string, blanks, punctuation)
+            names = fag.random_names(rng, len(RT[0]), exotic=True)
+            mp = dict(zip(RT[0], names))
+            yield {'cls': 'exotic_state_names', 'n': 3,
+                   'ref': tmr.make([mp[q] for q in RT[0]], RT[1], RT[2], [(mp[p], a, mp[q], b, d) for (p, a, q, b, d) in RT[3]], mp[RT[4]], mp[RT[5]], mp[RT[6]], RT[7])}
     for _ in range(10 if thorough else 4):
         for h in ('qa', 'qr'):
             RT = random_tm(rng, 2, 1, 2, '_', q0_halting=h, halting_moves=True)
